@@ -420,10 +420,56 @@ class Scene:
         return lines, uv
 
 
+class TouchScene:
+    """directed scene for the re-projection rule of the touch sensor: a free sphere pressed into the floor; zone s1 sits
+    on the sphere's body just *outside* the surface below the contact point, zone s2 on the world body just above the
+    floor, zone s3 contains the contact point.  The contact point is outside s1 and s2, the normal ray leaving the
+    sensorised body passes through them, the opposite ray does not."""
+
+    def __init__(self, rng):
+        from gen.models import Model
+        m = Model()
+        L = m.lines.append
+        self.mdl, self.rng = m, rng
+        self.r = rng.uniform(0.08, 0.2)
+        self.x, self.y = rng.uniform(-0.5, 0.5), rng.uniform(-0.5, 0.5)
+        L("option timestep 0.002")
+        L("geom 1 0"); L("set 1 type %d" % E("mjGEOM_PLANE")); L("set 1 size 5 5 0.1"); L("name 1 floor")
+        L("body 2 0"); L("name 2 b1"); L("set 2 pos 0 0 0")
+        L("freejoint 3 2"); L("name 3 j1")
+        L("geom 4 2"); L("name 4 g1"); L("set 4 type %d" % E("mjGEOM_SPHERE")); L("set 4 size %r" % self.r)
+        zone = rng.uniform(0.02, 0.04)
+        for h, body, nm, pos, size in ((5, 2, "s1", [0, 0, -(self.r + zone + 0.012)], zone),
+                                       (6, 0, "s2", [self.x, self.y, zone + 0.012], zone),
+                                       (7, 2, "s3", [0, 0, -self.r], 0.06)):
+            L("site %d %d" % (h, body)); L("name %d %s" % (h, nm)); L("set %d pos %s" % (h, fmt(pos)))
+            L("set %d type %d" % (h, E("mjGEOM_SPHERE"))); L("set %d size %r" % (h, size))
+        m.sites = [{"name": "s1", "body": "b1"}, {"name": "s2", "body": "world"}, {"name": "s3", "body": "b1"}]
+        m.nq, m.nv = 7, 6
+        self.h = 7
+        self.handle, self.tendon_wrap, self.sensors = {}, {}, []
+        for nm in ("s1", "s2", "s3", "s1"):
+            self.h += 1
+            c = rng.uniform(1.0, 30.0) if rng.random() < 0.3 else None
+            L("sensor %d" % self.h); L("name %d sn%d" % (self.h, len(self.sensors) + 1))
+            L("set %d type %d" % (self.h, E("mjSENS_TOUCH"))); L("set %d objtype %d" % (self.h, E("mjOBJ_SITE")))
+            L("set %d objname %s" % (self.h, nm))
+            if c:
+                L("set %d cutoff %r" % (self.h, c))
+            self.sensors.append({"name": "sn%d" % (len(self.sensors) + 1), "type": "TOUCH", "objtype": "mjOBJ_SITE", "objname": nm,
+                                 "reftype": None, "refname": None, "cutoff": c, "extra": {}})
+
+    def state_lines(self, rng):
+        pen = rng.uniform(0.001, 0.006)
+        lines = ["state qpos %s" % fmt([self.x, self.y, self.r - pen, 1, 0, 0, 0]), "state qvel 0 0 0 0 0 0",
+                 "state time 0.0", "usersensor 0.0"]
+        return lines, [0.0]
+
+
 # ------------------------------------------------------------------------------------------ oracle: parsing the harness output
 def parse_eval(out, pos):
     """parse the lines of one `eval` starting at out[pos]; returns (record, next position)"""
-    rec = {"sens": [], "arr": {}, "con": [], "refobj": {}, "refref": {}, "error": None, "names": {}}
+    rec = {"sens": [], "arr": {}, "con": [], "refobj": {}, "refref": {}, "error": None, "names": {}, "recomp": {}}
     while pos < len(out):
         w = out[pos].split()
         pos += 1
@@ -441,6 +487,8 @@ def parse_eval(out, pos):
                                 "cutoff": float(w[11]), "intprm": [int(w[12]), int(w[13])]})
         elif w[0] == "arr":
             rec["arr"][w[1]] = [float(x) for x in w[3:]]
+        elif w[0] == "recomp":
+            rec["recomp"][int(w[1])] = [int(x) for x in w[2:5]]
         elif w[0] == "names":
             rec["names"][w[1]] = w[3:]
         elif w[0] == "iarr":
@@ -622,6 +670,13 @@ def judge(scene, rec, uservals, dev):
             continue
         exp, scale, skip = None, 1.0, False
         oid, rid = s["objid"], s["refid"]
+        rc = rec["recomp"].get(s["i"])
+        if rc and rc[0]:
+            fails.append(("c28:%s:out-of-slice-write" % t, "mj_computeSensor wrote beyond the sensor's own sensor_dim entries",
+                          {"sensor": s, "spec": spec}))
+        if rc and not rc[1] and s["cutoff"] <= 0:
+            fails.append(("c28:%s:value" % t, "sensordata after mj_forward differs from mj_computeSensor on the same state",
+                          {"sensor": s, "spec": spec, "sensordata": got}))
 
         def chk(key, a, b, allowed, what, extra=None):
             if not finite(a):
@@ -835,6 +890,8 @@ def judge(scene, rec, uservals, dev):
             exp = [tot]
             scale = max(1.0, tot)
             skip = marginal
+            if tot > 0 and not skip:
+                dev.m["skipped:TOUCH-nonzero(count, not skipped)"] = dev.m.get("skipped:TOUCH-nonzero(count, not skipped)", 0) + 1
         elif t == "INSIDESITE":
             body, p, R = frame_of(A, s["objtype"], oid)
             if s["objtype"] == E("mjOBJ_BODY") and oid > 0 and mass[oid] < 1e-15:
@@ -909,7 +966,7 @@ def run_models(ctx, impl, nmodels, nstates, dev, hist, max_report=8):
     for k in range(nmodels):
         scene = None
         for attempt in range(20):
-            sc = Scene(rng, all_types=(k % 4 == 0))
+            sc = TouchScene(rng) if k % 9 == 5 else Scene(rng, all_types=(k % 4 == 0))
             if sc.sensors:
                 scene = sc
                 break
